@@ -303,6 +303,12 @@ def _compute_integral_ir(
             _blockmap.append(dofmap)
         blockmap = tuple(_blockmap)
 
+        if TensorPart.from_str(p["part"]) == TensorPart.diagonal and blockmap[0] != blockmap[1]:
+            # Off-diagonal block (the two arguments live on different
+            # sub-elements/components or on different sides of an interior
+            # facet): it has no entries on the diagonal
+            continue
+
         block_is_uniform = all(tr.is_uniform for tr in trs)
 
         # Collect relevant restrictions to identify blocks correctly
